@@ -162,6 +162,10 @@ type rrSeqCase struct {
 	// Undo: the names the refused call left in the map are taken out before the repetition (set by
 	// the generator only while the finding packrr-retry-stale-map is listed and reproduces)
 	Undo bool `json:",omitempty"`
+	// Drop[i]: when the short-buffer call for record i is refused the caller gives the record up and
+	// packs the NEXT record at the same offset with the same map (round 10: what the refused call
+	// entered into the map would now describe octets of a different record)
+	Drop []bool `json:",omitempty"`
 }
 
 const knownRetry = "packrr-retry-stale-map"
@@ -170,7 +174,8 @@ func checkRRSeq(c rrSeqCase) error {
 	buf := bytes.Repeat([]byte{0xEE}, 70000)
 	comp := map[string]int{}
 	off := 0
-	refused := 0
+	refused, dropped := 0, 0
+	var kept []wm.Rec
 	for i, r := range c.Recs {
 		rr, err := wm.ToLib(r)
 		if err != nil {
@@ -187,9 +192,14 @@ func checkRRSeq(c rrSeqCase) error {
 			noff, err := dns.PackRR(rr, buf[:off+c.Room[i]-1], off, comp, true)
 			if err == nil {
 				off = noff // there was room after all
+				kept = append(kept, r)
 				continue
 			}
 			refused++
+			if i < len(c.Drop) && c.Drop[i] {
+				dropped++
+				continue // given up; whatever comes next is packed at the same offset
+			}
 			if c.Undo {
 				for k := range comp {
 					if _, ok := before[k]; !ok {
@@ -203,16 +213,23 @@ func checkRRSeq(c rrSeqCase) error {
 			return pbt.Errf("PackRR with a compression map failed: %v", err)
 		}
 		off = noff
+		kept = append(kept, r)
 	}
-	if refused > 0 {
+	if refused > dropped {
 		pbt.Class("call-repeated-after-short-buffer")
+	}
+	if dropped > 0 {
+		pbt.Class("record-given-up-after-short-buffer")
+		if len(kept) > 0 {
+			pbt.Class("other-record-at-the-offset-of-a-refused-one")
+		}
 	}
 	// read the records back with the library and compare with the model
 	pos := 0
-	for i, r := range c.Recs {
+	for i, r := range kept {
 		rr, npos, err := dns.UnpackRR(buf[:off], pos)
 		if err != nil {
-			return pbt.Errf("record %d packed by PackRR with a compression map from offset 0 does not unpack: %v (%d calls were first refused for lack of room and repeated with the whole buffer; octets from the record's start: %s)", i, err, refused, hx(buf[pos:off]))
+			return pbt.Errf("record %d packed by PackRR with a compression map from offset 0 does not unpack: %v (%d calls were first refused for lack of room, %d of these records were given up and the next one packed in their place, the others repeated with the whole buffer; octets from the record's start: %s)", i, err, refused, dropped, hx(buf[pos:off]))
 		}
 		back, err := wm.FromLib(rr, true)
 		if err != nil {
@@ -221,11 +238,11 @@ func checkRRSeq(c rrSeqCase) error {
 		w1, _ := wm.EncodeRR(back)
 		w2, _ := wm.EncodeRR(r)
 		if !bytes.Equal(w1, w2) {
-			return pbt.Errf("record %d of a PackRR sequence with compression reads back differently: %s", i, hexdiff(w1, w2))
+			return pbt.Errf("record %d of a PackRR sequence with compression reads back differently (%d calls refused for lack of room, %d of these records given up): %s", i, refused, dropped, hexdiff(w1, w2))
 		}
 		pos = npos
 	}
-	pbt.Note(buf[:off], len(c.Recs) > 1, fmt.Sprintf("records=%d", len(c.Recs)))
+	pbt.Note(buf[:off], len(kept) > 1, fmt.Sprintf("records=%d", len(kept)))
 	return nil
 }
 
@@ -244,10 +261,25 @@ func genRRSeq(t *rapid.T) rrSeqCase {
 	// a caller whose buffer turns out too small for a record and who repeats the call with a larger one
 	if rapid.IntRange(0, 2).Draw(t, "shortbuffer") == 0 {
 		c.Room = make([]int, len(c.Recs))
+		c.Drop = make([]bool, len(c.Recs))
+		giveUp := rapid.Bool().Draw(t, "giveup") // this caller drops a record that does not fit instead of growing the buffer
+		var lost []wm.Name
 		for i, r := range c.Recs {
 			if rapid.Bool().Draw(t, "short") {
 				w, _ := wm.EncodeRR(r)
 				c.Room[i] = 1 + rapid.IntRange(0, len(w)).Draw(t, "room")
+				if giveUp && rapid.IntRange(0, 2).Draw(t, "drop") > 0 {
+					c.Drop[i] = true
+					lost = append(lost, r.Name)
+				}
+			}
+		}
+		// the names of a record that was given up come back later: as the owner of a following record
+		// and as (the parent of) its target
+		if len(lost) > 0 && rapid.Bool().Draw(t, "echo") {
+			n := rapid.SampledFrom(lost).Draw(t, "lost")
+			if len(n) > 0 && n.WireLen() < 250 {
+				c.Recs = append(c.Recs, wm.Rec{Name: n.Clone(), Type: wm.TNS, Class: 1, TTL: 7, Fields: []wm.Field{{K: wm.NameC, N: append(wm.Name{[]byte("ns")}, n.Clone()...)}}})
 			}
 		}
 		if pbt.Known(knownRetry) {
